@@ -91,6 +91,17 @@ CHECKS = {
     technique="TLA+ specs SortOps/SortMod (sort_replace as written vs sorted-multiset property, only-changed-rows written) and Breakdown/BreakdownMC (tri rule + mux selection memory) checked by TLC; exported sequences replayed in-process on sort.c (drivers/sortharness) and histories replayed with ovniemu -b, validated by BreakdownTrace.tla",
     text="The full finite state space of the sort module for n<=4 inputs is explored with RowsSorted / OnlyChangedWritten / AllChangedWritten and four refuted wrong variants; all exported replacement cases and module histories are replayed on the real sort.c; nOS-V and Nanos6 bounded models (2-3 CPUs) are explored and thousands of histories are emulated with -b: after every event the breakdown rows must be the sorted multiset of the per-CPU values given by the tri rule applied to the same run's cpu.prv and predicted by the spec.",
     note="One genuine finding is listed in known-findings.txt (stale tr-mux selection); the spec tolerates exactly that state and reports every other disagreement."),
+
+ "C03": dict(
+    level="model_checking", ref="DESIGN.md §4 C03",
+    technique="TLA+ specs Player/PlayerMerge (property layer Merge), PtrHeap/PlayerHeap/HeapOps (heap.h and player.c transcribed) checked by TLC incl. refinement HeapPlayer => Merge; exported heap op sequences replayed on the real heap.h (drivers/heapharness), exported stream sets replayed through ovnidump/ovnitop/ovniemu in several enumeration orders and validated by PlayerTrace.tla",
+    text="TLC checks the structural heap invariants and that every emission of the pointer-heap player is an allowed step of the abstract k-way merge (ties free), corrected clocks and output times, independence of the enumeration order, with 12 refuted negative configurations. ~19k heap op sequences are replayed on heap.h comparing popped keys and the whole pointer structure; 1200 (quick) stream sets with offset tables are materialised in several directory orders (and nftw orders through a shim) and the observed replay order / PRV times validated by TLC.",
+    note="ovnidump/ovnitop have no clock-offset input (offsets exercised on ovniemu only); a stream whose first corrected clock is negative is refused by the code (modelled via Base, assumption)."),
+ "C12": dict(
+    level="model_checking", ref="DESIGN.md §4 C12",
+    technique="TLA+ spec Corrupt (acceptance function over EmuFull + SystemOps; every single corruption of 5 seed traces enumerated by TLC with expected verdict) + CorruptBytes for suite traces; each corrupted trace materialised byte for byte and run through ovniemu -l",
+    text="TLC enumerates every truncation offset, adjacent swap, clock regression, header byte alteration, JSON damage, metadata key removal/retyping/alteration, require alteration, MCV substitution, payload-size change and jumbo-flag removal of the seeds and decides reject / ok / unspecified with the reference semantics (12 invariants, 4 refuted negative configurations); ~4000 (quick) corrupted traces are run on the real emulator: expected reject => exit 1 without 'finished ok' and without a signal.",
+    note="Where a corruption yields another valid trace the spec says ok/Unspecified; redundant guards in the code make some single-guard mutations verdict-equivalent."),
 }
 
 NA_REASON = "check not built yet in this round (planned, see DESIGN.md §4/§8); not claimed until its machinery exists"
